@@ -134,18 +134,22 @@ theorem reprovision (n : Nat) (s s' : LSt) (i : Nat) (h : lstep n s (.provision 
     simp
   · cases h
 
-/-- a SetSharedCapacity is followed by a re-provisioning before any further lease request -/
+/-- a SetSharedCapacity records the new value and a pending re-provisioning, which the loop can carry out as soon as
+no lease call is in flight (the loop notices the request at the top of its next iteration) -/
 theorem setShared_requests_provisioning (n : Nat) (s s' : LSt) (i v : Nat) (h : lstep n s (.setShared i v) = some s') :
-    (s'.inst i).shared = v ∧ (s'.inst i).needProvision = true ∧ (∀ p, lstep n s' (.issue i p) = none) := by
+    (s'.inst i).shared = v ∧ (s'.inst i).needProvision = true ∧
+    ((s'.inst i).loopOn = true → (s'.inst i).call = none → ∃ s'', lstep n s' (.provision i) = some s'') := by
   unfold lstep at h
   simp only [LLabel.inst?] at h
   split at h
-  · simp only [lstepCore] at h
+  · rename_i hi
+    simp only [lstepCore] at h
     split at h <;> cases h
     refine ⟨by simp, by simp, ?_⟩
-    intro p
-    unfold lstep; simp only [LLabel.inst?, lstepCore, updI_same]
-    split <;> simp
+    intro hon hc
+    simp only [updI_same] at hon hc
+    unfold lstep
+    simp [LLabel.inst?, hi, lstepCore, hon, hc]
   · cases h
 
 /-- **Index safety for every history** (the model counterpart of "never panics"): whatever leases expire meanwhile,
